@@ -49,7 +49,19 @@ func (w *World) VerifyFunc(ct *Contract) (res *FuncResult) {
 		e.assumeAllocated(v, entry)
 		fr.args = append(fr.args, v)
 	}
-	for _, fv := range fn.FreeVars {
+	for k, fv := range fn.FreeVars {
+		// a captured variable that is never assigned after the closure was created is a constant
+		// of this execution: model its cell as a local (no callee can change it)
+		if et, ok := effectivelyFinal(fn, k, nil); ok {
+			e.allocN++
+			name := fmt.Sprintf("L:%s.fv_%s#%d", fn.Name(), fv.Name(), e.allocN)
+			e.comps.Register(name, e.sortOf(et))
+			init := e.freshVal("fvinit_"+fv.Name(), et)
+			e.assumeAllocated(init, entry)
+			entry = e.Set(entry, name, init.T)
+			fr.bind = append(fr.bind, Val{T: e.sc.DeclFun("addr_"+name, nil, "Int"), Typ: fv.Type(), Addr: &Addr{Comp: name, Typ: et, Root: et}})
+			continue
+		}
 		fr.bind = append(fr.bind, e.freshVal("fv_"+fv.Name(), fv.Type()))
 	}
 	// requires are assumed at entry
@@ -109,7 +121,7 @@ func (e *Enc) frameObligations(fr *Frame, ct *Contract, entry, out *State, reach
 	sort.Strings(names)
 	al0 := e.Get(entry, "$alloc")
 	for _, c := range names {
-		if c == "$alloc" || c == "$priv" || strings.HasPrefix(c, "L:") || e.w.ambientGhost(c) {
+		if c == "$alloc" || strings.HasPrefix(c, "$p#") || strings.HasPrefix(c, "L:") || e.w.ambientGhost(c) {
 			continue
 		}
 		if mod(c) {
